@@ -17,7 +17,7 @@ def main(argv):
     tier, seed, replay = tier_and_seed(argv)
     v = Verdict(PROP, tier, seed)
     proofs_ok, h_ok, unrec = standard_proof_steps(
-        v, PROP, [], ['theories/Props/C13.vo'], ['c13'], corr_targets=['theories/Corr/C13.vo'])
+        v, PROP, ['timelabels'], ['theories/Props/C13.vo'], ['c13'], corr_targets=['theories/Corr/C13.vo'])
 
     cases, texts, kinds = [], [], []
     oracle_fail = []
@@ -39,7 +39,7 @@ def main(argv):
         for f in corpus_src: lines += run_harness(v, ['text', f], seed)
         for f in corpus_times: lines += run_harness(v, ['times', f], seed)
         if not replay:
-            n = {'quick': (1500, 1500, 2500), 'thorough': (40000, 40000, 80000)}[tier if tier in ('quick', 'thorough') else 'quick']
+            n = {'quick': (1500, 1500, 2500), 'thorough': (20000, 20000, 40000)}[tier if tier in ('quick', 'thorough') else 'quick']
             lines += run_harness(v, ['pass', n[0]], seed) + run_harness(v, ['compile', n[1]], seed) + run_harness(v, ['decomp', n[2]], seed)
         for l in lines:
             parts = l.split('\t')
@@ -93,6 +93,9 @@ def main(argv):
     if (not proofs_ok or not v.corr_ok) and not v.violations:
         v.violation('proof obligation does not check: %s' % json.dumps(v.coq_error)[:400],
                     {'class': 'c13-proof', 'broken': v.coq_error}, no_failing_input=True)
+    elif unrec and not v.violations:
+        v.violation('translator no longer recognises the time label rules: %s' % unrec[:3],
+                    {'class': 'c13-tie1', 'broken': unrec}, no_failing_input=True)
     elif any(not o[1] for o in v.obligations) and not v.violations:
         bad = [o for o in v.obligations if not o[1]]
         v.violation('obligation failed: %s' % bad[0][0], {'class': 'c13-obligation', 'broken': [list(b) for b in bad]}, no_failing_input=True)
@@ -110,8 +113,8 @@ def main(argv):
     })
     return v.finish(
         level='proof',
-        checker_cmd='cd coq && make theories/Corr/C13.vo theories/Props/C13.vo ; coqc work/audit_C13.v (Print Assumptions) ; harness/target/debug/c13 pass|compile|decomp|text|times ; coqc work/cases_C13/*.v',
-        trusted_base=['modelled, not verified: Model/Time.v is a hand-written restatement of time_and_difficulty.rs (Visitor, TimeAndDifficultyHelper), of the statement-insertion positions of desugar_blocks.rs, and of raise/early.rs generate_label_at_offset + raise/late.rs LabelEmitter; tied to the code by differential execution only (there is no table to regenerate)'],
+        checker_cmd='gen/timelabels.py ; cd coq && make theories/Corr/C13.vo theories/Props/C13.vo ; coqc work/audit_C13.v (Print Assumptions) ; harness/target/debug/c13 pass|compile|decomp|text|times ; coqc work/cases_C13/*.v',
+        trusted_base=['modelled, not verified: Model/Time.v is a hand-written restatement of time_and_difficulty.rs (Visitor, TimeAndDifficultyHelper), of the statement-insertion positions of desugar_blocks.rs, and of raise/early.rs generate_label_at_offset + raise/late.rs LabelEmitter; tied to the code by gen/timelabels.py (the shape of the rules in the four source locations is re-read on every run; C13_source_shape_is_modelled compares it with the hard-coded model) and by differential execution'],
         assumptions=['every instruction a statement lowers to carries the statement\'s time: checked by the correspondence (runs of non-marker instructions), not proved (lowering itself is not modelled)',
                      'time fields narrower than 32 bits in some file formats are property C03',
                      'decompiler passes that merge instructions (diff switches, two-part jumps) are outside the label-emission model; the decompile oracle covers them only as far as the generated scripts trigger them'])
